@@ -117,18 +117,48 @@ func checkStateGate(c *Ctx, li *lockInfo, rule, pkg, label, method string, sinks
 	key := label + "." + method + ":registered-or-ready-gate"
 	// engine.Registered == 0, engine.Ready == 2
 	tests, n := indexGetTests(f, pkg, "0", "2")
+	gateFn := f
+	cut := boolEdgeCut(tests, true)
 	if n < 2 || len(tests) < 2 {
-		c.Bad(rule, key, c.Pos(f.Pos()), "reason=anchor-missing: no membership tests on workSpaceIndex[Registered] and workSpaceIndex[Ready]")
-		return
+		// the membership tests may sit in a helper the reference tree does not have: the helper must succeed
+		// only behind them, and the method must fail when the helper fails (summary.go)
+		found := false
+		allInstrs(f, func(in ssa.Instruction) {
+			cl, ok := in.(*ssa.Call)
+			if !ok || found {
+				return
+			}
+			h := cl.Call.StaticCallee()
+			if h == nil || !gNewFuncs[h] || len(errResults(cl)) == 0 {
+				return
+			}
+			ht, hn := indexGetTests(h, pkg, "0", "2")
+			if hn < 2 || len(ht) < 2 {
+				return
+			}
+			hr := reach(h, nil, boolEdgeCut(ht, true), nil)
+			for _, ret := range returnsOf(h) {
+				if hr(ret) && isNilErrorReturn(ret) {
+					return // the helper can succeed for a space that is neither registered nor ready
+				}
+			}
+			found = true
+			gateFn = h
+			cut = errorEdgeCut(f, cl, false)
+		})
+		if !found {
+			c.Bad(rule, key, c.Pos(f.Pos()), "reason=anchor-missing: no membership tests on workSpaceIndex[Registered] and workSpaceIndex[Ready]")
+			return
+		}
 	}
-	r := reach(f, nil, boolEdgeCut(tests, true), nil)
+	r := reach(f, nil, cut, nil)
 	bad := false
 	nSinks := 0
 	// the gate is only a gate if test and effect are one critical section: the membership tests
 	// themselves must run with stateLock held for writing (otherwise check-then-act: MineWS or the
 	// plotter can change the state between the test and the effect)
 	if li != nil {
-		for _, g := range callsIn(f, "(*"+pkg+".WorkSpaceMap).Get") {
+		for _, g := range callsIn(gateFn, "(*"+pkg+".WorkSpaceMap).Get") {
 			st := wsIndexState(callRecv(g))
 			if st != "0" && st != "2" {
 				continue
